@@ -189,7 +189,7 @@ func (fx *FuncExec) allocMonotone(st *State, pre map[string]string) {
 		if st.vars[c] == o {
 			continue
 		}
-		fx.ghFacts = append(fx.ghFacts, ghFact{c, fmt.Sprintf("(forall ((r %s)) (! (=> (select %s r) (select %s r)) :pattern ((select %s r))))", srt, o, st.vars[c], st.vars[c]), st.vars[c]})
+		fx.ghFacts = append(fx.ghFacts, ghFact{c, fmt.Sprintf("(forall ((r %s)) (! (=> (select %s r) (select %s r)) :pattern ((select %s r))))", srt, o, st.vars[c], st.vars[c]), st.vars[c], true})
 	}
 }
 
